@@ -87,7 +87,7 @@ class Forger:
             return self._r('skip.other_input_pending')
         if timers_due(node):
             return self._r('skip.timer_due')
-        cands = [sa for sa in node.ike_sas() if sa.ike_sa_keyring is not None]
+        cands = [sa for sa in node.ike_sas() if sa.ike_sa_keyring is not None or getattr(sa, 'peer_crypto', None) is not None or getattr(sa, 'my_crypto', None) is not None]     # (ever derived keys, whichever attribute says so)
         if not cands:
             return self._r('skip.no_sa_with_keys')
         sa = cands[op.get('sa', 0) % len(cands)]
@@ -184,12 +184,27 @@ class Forger:
             exch = r.choice([35, 36, 37, 34])
             return R.enc_header(spi_i, spi_r, r.choice([0, 0, 46]), exch, (8 if peer_I else 0) | (32 if is_res else 0), m, 28), \
                 f'header-only {EXCH.get(exch)} {"response" if is_res else "request"} id {m}'
-        if kind in ('flip', 'trunc', 'extend', 'flags'):
+        if kind in ('flip', 'trunc', 'extend', 'flags', 'hdr'):
             if not to_me:
                 return None
             rec = to_me[-1 - (op.get('pick', 0) % min(len(to_me), 4))]
             b = bytearray(rec['data'])
-            if kind == 'flip':
+            if kind == 'hdr':
+                # one header field of an authentic datagram set to another meaningful value (the checksum covers the header)
+                field = op.get('field', 'exch')
+                if field == 'exch':
+                    v = op.get('value', 34)
+                    if b[18] == v:
+                        v = 37 if v != 37 else 36
+                    b[18] = v
+                elif field == 'version':
+                    b[17] = op.get('value', 0x21) & 0xFF if b[17] != (op.get('value', 0x21) & 0xFF) else 0x22
+                elif field == 'msgid':
+                    b[20:24] = struct.pack('>L', (rec['h']['id'] + op.get('value', 1)) & 0xFFFFFFFF)
+                else:
+                    b[16] = op.get('value', 0) & 0xFF if b[16] != (op.get('value', 0) & 0xFF) else 41
+                lab = f'authentic {EXCH.get(rec["h"]["exch"])} id {rec["h"]["id"]} with header field {field} rewritten to {op.get("value")}'
+            elif kind == 'flip':
                 pos = op.get('pos', 0) % len(b)
                 b[pos] ^= op.get('mask', 1) or 1
                 lab = f'authentic {EXCH.get(rec["h"]["exch"])} id {rec["h"]["id"]} with octet {pos} ^ {op.get("mask", 1):#x}'
